@@ -51,7 +51,11 @@ fn crowded_recs(rng: &mut Rng, lang: &str, n: usize, corpus: &[Rec], distinct: b
     let dense = distinct && rng.chance(1, 3);
     let base = if dense { *rng.pick(&[0usize, 1, 1000, (1 << 24) - 3, (1usize << 31) - 1 - 700]) } else { 0 };
     let mut ratings: Vec<usize> = (0..n).map(|i| if dense { base + i } else if distinct { i * 5 + 1 + rng.below(5) } else { rng.below(3) }).collect();
-    if !dense {
+    let high_words = distinct && !dense && rng.chance(1, 8);
+    if high_words {
+        // pairwise distinct ratings that agree in their lower 32 bits in groups of n/3 (a 64-bit host can hold them)
+        ratings = (0..n).map(|i| (i % 3) + (i << 32)).collect();
+    } else if !dense {
         gen::scale_ratings(rng, &mut ratings);
     }
     rng.shuffle(&mut ratings);
